@@ -47,7 +47,7 @@ Layouts == {"C", "F", "strided", "readonly"}
 Backends == {"numpy", "dask"}
 
 \* which configurations the library supports (others raise: outside the domain, errors are not mutations)
-NumpyOnly == {"natural_breaks", "equal_interval", "a_star_search", "viewshed", "regions", "trim", "crop",
+NumpyOnly == {"natural_breaks", "a_star_search", "viewshed", "regions", "trim", "crop",
               "polygonize", "polygonize_mask"}
 Supported(f, backend, dtype, layout) ==
   /\ f \in AllFuncs /\ f # "bands_to_img" /\ f # "bump"
